@@ -101,7 +101,7 @@ func c12Scenarios(cfg runCfg) []Scenario {
 	seeds := 1
 	step := 3
 	if cfg.thorough() {
-		seeds, step = 5, 1
+		seeds, step = 25, 1
 	}
 	for s := 0; s < seeds; s++ {
 		for ki, k := range intKinds {
